@@ -96,6 +96,8 @@ def _resolved(levels):
 
 
 N_EXOTIC = 12
+CLONE_KINDS = ["pickle0", "pickle1", "pickle2", "pickle3", "pickle4", "pickle5", "pickle_default", "pickle_agent",
+               "pickle_agentset", "deepcopy", "copy_agent"]
 
 
 def _exotic_table():
@@ -154,6 +156,11 @@ def _gen_history(rng):
             ops.append(["step", i, args, nkw])
         elif r < 0.8:
             ops.append(["run", i, FUEL])
+        elif r < 0.87 and len(inst_cls) < 6:
+            # a pickle round trip (protocols 0-5, directly or through a pickled agent / AgentSet of the model) or a deepcopy:
+            # stepping continues on the restored instance AND on the original
+            ops.append(["clone", i, rng.choice(CLONE_KINDS)])
+            inst_cls.append(inst_cls[i])
         elif r < 0.93:
             ops.append(["set_running", i, rng.random() < 0.6])
         elif len(inst_cls) < 4:
@@ -184,7 +191,9 @@ def _shape_case(shape, variant):
     good = [] if ar <= 0 else [7] * ar
     ops = [["new", 0], ["new", 0], ["step", 0, good, 0], ["step", 1, [5] if ar < 0 else good, 1 if (ar != 0) else 0],
            ["step", 0, [5, 6], 1], ["step", 0, good, 0], ["run", 1, FUEL], ["run", 0, FUEL],
-           ["set_running", 0, True], ["run", 0, FUEL], ["step", 1, [], 0]]
+           ["set_running", 0, True], ["run", 0, FUEL], ["step", 1, [], 0],
+           ["clone", 0, CLONE_KINDS[(len(shape) + sum(shape)) % len(CLONE_KINDS)]], ["step", 2, good, 0], ["step", 0, good, 0],
+           ["clone", 2, "deepcopy"], ["step", 3, good, 0], ["set_running", 2, True], ["run", 2, FUEL]]
     return {"classes": [levels], "ops": ops}
 
 
@@ -220,6 +229,21 @@ class _Budget(Exception):
 
 class _BadMRO(Exception):
     pass
+
+
+_UID = [0]
+
+
+def _reg(cls):
+    """make a class built with type() picklable by reference: a unique module-level name in this module"""
+    import sys
+
+    _UID[0] += 1
+    name = f"{cls.__name__}_{_UID[0]}"
+    cls.__name__ = cls.__qualname__ = name
+    cls.__module__ = __name__
+    setattr(sys.modules[__name__], name, cls)
+    return cls
 
 
 class _Driver:
@@ -275,7 +299,8 @@ class _Driver:
                 def step(self, *args, **kwargs):      # shadowed by Model.step: must never run
                     drv0.log.append((drv0.index_of(self), 99, self.steps, bool(self.running), []))
 
-            parent = type(f"C{ci}Root", (self.mesa.Model, StepMixin), {})
+            _reg(StepMixin)
+            parent = _reg(type(f"C{ci}Root", (self.mesa.Model, StepMixin), {}))
         root = parent
         res = _resolved(levels)
         drv = self
@@ -317,15 +342,15 @@ class _Driver:
                 exec(src, env)  # noqa: S102 - the source is generated two lines above
                 ns["step"] = env["step"]
             if bases is not None and bases[idx]:
-                cls = type(f"C{ci}L{idx}", tuple(built[b] for b in bases[idx]), ns)
+                cls = _reg(type(f"C{ci}L{idx}", tuple(built[b] for b in bases[idx]), ns))
             else:
-                cls = type(f"C{ci}L{idx}", (parent if bases is None else root,), ns)
+                cls = _reg(type(f"C{ci}L{idx}", (parent if bases is None else root,), ns))
             built[idx] = cls
             holder.append(cls)
             parent = cls
         if falsy:
             top = built[0] if (bases is not None and levels) else parent
-            parent = type(f"C{ci}Falsy", (top,), {"__bool__": lambda self: False, "__len__": lambda self: 0})
+            parent = _reg(type(f"C{ci}Falsy", (top,), {"__bool__": lambda self: False, "__len__": lambda self: 0}))
             if bases is not None and levels:
                 built = dict(built)
                 mro = [c for c in top.__mro__ if c in built.values()]
@@ -433,6 +458,35 @@ class _Driver:
         if kind == "set_running":
             m.running = bool(op[2])
             return [0]
+        if kind == "clone":
+            import copy
+            import pickle
+
+            how = op[2]
+            if how.startswith("pickle") and how[6:].isdigit():
+                r = pickle.loads(pickle.dumps(m, protocol=int(how[6:])))
+            elif how == "pickle_default":
+                r = pickle.loads(pickle.dumps(m))
+            elif how == "deepcopy":
+                r = copy.deepcopy(m)
+            else:
+                if len(m.agents) == 0:
+                    self.mesa.Agent(m)
+                if how == "pickle_agent":
+                    r = pickle.loads(pickle.dumps(m.agents[0], protocol=pickle.HIGHEST_PROTOCOL)).model
+                elif how == "copy_agent":
+                    r = copy.deepcopy(m.agents[0]).model
+                else:
+                    r = next(iter(pickle.loads(pickle.dumps(m.agents)))).model
+            what = f"instance {i} (class levels {levels}) restored through {how} with steps={s0}, running={before[i][1]}"
+            if r is m or type(r) is not type(m):
+                self.fail("C05/Model.copy/not-a-new-instance-of-the-class", f"{what}: got {type(r).__name__}, same object: {r is m}")
+            if (r.steps, bool(r.running)) != before[i] or self.states()[i] != before[i]:
+                self.fail("C05/Model.copy/counter-not-carried-over",
+                          f"{what}: the copy has steps={r.steps}, running={r.running}; the original now {self.states()[i]}")
+            self.insts.append(r)
+            self.inst_cls.append(self.inst_cls[i])
+            return [len(self.insts) - 1]
         start = len(self.log)
         self.calls = 0
         self.budget = None
@@ -553,6 +607,8 @@ def _op(op):
         return f"Step {L.z(op[1])} {L.zlist(op[2])}"
     if op[0] == "run":
         return f"RunModel {L.z(op[1])} {int(op[2])}%nat"
+    if op[0] == "clone":
+        return f"Clone {L.z(op[1])}"
     if op[0] == "set_running":
         return f"SetRunning {L.z(op[1])} {L.b(op[2])}"
     raise ValueError(op)
@@ -570,6 +626,8 @@ def op_kinds(case):
     for op in case["ops"]:
         if op[0] == "step":
             out.append(f"step/{len(op[2])}args/{op[3]}kw")
+        elif op[0] == "clone":
+            out.append(f"clone/{op[2]}")
         else:
             out.append(op[0])
     for ci, c in enumerate(case["classes"]):
